@@ -169,3 +169,34 @@ def run(ctx):
                     ctx.oblige(i.startswith(ALLOWED), "C04.5", "label-slot-assigned:" + (b.root or i),
                                "%s assigns the label slot of an existing node-table record" % i.split("::")[-1], "%s:%d" % (b.file, st[3]))
     ctx.floor("C04.5", "writers of I2E records", n5, 1)
+
+    # ---- clause 6: fixed-layout codecs agree ------------------------------------------------------------------
+    # The meta page and the node-table records are written at fixed byte ranges and read back at fixed byte ranges by a separate function.
+    # Reopen restores the high-water marks, the node table location and each node's external id / label from them, so the writer's table
+    # {byte range -> field} and the reader's must be the same table (two equally wide fields swapped on one side decode without any error).
+    from .. import codec
+    ctx.rule("C04.6", "writer and reader of the meta page and of the node-table record agree on {byte range -> field}")
+    for enc, dec, floor in (("nervusdb_storage::pager::Meta::encode_page", "nervusdb_storage::pager::Meta::decode_page", 10),
+                            ("nervusdb_storage::idmap::I2eRecord::encode", "nervusdb_storage::idmap::I2eRecord::decode", 3)):
+        w = {k: v for k, v in codec.writer_table(ctx.body(enc)).items() if v}
+        r = {k: v for k, v in codec.reader_table(ctx.body(dec)).items() if v}
+        ctx.floor("C04.6", "named ranges written by %s" % enc.split("::")[-2], len(w), floor)
+        ctx.floor("C04.6", "named ranges read by %s" % dec.split("::")[-2], len(r), floor)
+        for rng in sorted(set(w) | set(r)):
+            ctx.instance("C04.6", "%s bytes %d..%d: written %s, read as %s" % (enc.split("::")[-2], rng[0], rng[1], w.get(rng), r.get(rng)))
+            ctx.oblige(w.get(rng) == r.get(rng), "C04.6", "%s:bytes[%d..%d]" % (enc.split("::")[-2], rng[0], rng[1]),
+                       "bytes %d..%d hold `%s` when written and are read back as `%s`: after reopen the value of one field is taken for another" % (rng[0], rng[1], w.get(rng), r.get(rng)),
+                       ctx.body(dec).file)
+    # the CSR segment meta page: written through a cursor (offsets accumulate from the field widths), read at fixed ranges by
+    # decode_segment / decode_page_lists on every open
+    cw = {k: v for k, v in codec.cursor_writer_table(ctx.body("nervusdb_storage::csr::encode_meta")).items() if v}
+    cr = dict(codec.reader_table(ctx.body("nervusdb_storage::csr::decode_segment")))
+    cr.update(codec.reader_table(ctx.body("nervusdb_storage::csr::decode_page_lists")))
+    cr = {k: v for k, v in cr.items() if v}
+    ctx.floor("C04.6", "named ranges written by csr::encode_meta", len(cw), 13)
+    ctx.floor("C04.6", "named ranges read by csr::decode_segment / decode_page_lists", len(cr), 13)
+    for rng in sorted(set(cw) | set(cr)):
+        ctx.instance("C04.6", "csr meta bytes %d..%d: written %s, read as %s" % (rng[0], rng[1], cw.get(rng), cr.get(rng)))
+        ctx.oblige(cw.get(rng) == cr.get(rng), "C04.6", "csr-meta:bytes[%d..%d]" % rng,
+                   "segment meta bytes %d..%d hold `%s` when written and are read back as `%s`: every reopen after a compaction mis-reads the segment" % (rng[0], rng[1], cw.get(rng), cr.get(rng)),
+                   "nervusdb-storage/src/csr.rs")
